@@ -120,6 +120,10 @@ def _rules():
     def _(prog, var, p, a):
         return p if var == "Some" else a[0]
 
+    @opt("unwrap_or_default")
+    def _(prog, var, p, a):
+        return p if var == "Some" else ("call", "core::default::Default::default", ())
+
     @opt("unwrap_or_else")
     def _(prog, var, p, a):
         return p if var == "Some" else _apply(prog, a[0], [])
@@ -138,6 +142,16 @@ def _rules():
     @opt("or")
     def _(prog, var, p, a):
         return some(p) if var == "Some" else a[0]
+
+    @opt("filter")
+    def _(prog, var, p, a):
+        # `o.filter(pred)`: Some(x) stays iff pred(&x) - two cases under the predicate's value
+        if var == "None":
+            return NONE
+        c = _apply(prog, a[0], [("ref", p, False)])
+        if c is None:
+            return None
+        return ("cases", (((c, "eq", 1),), some(p)), (((c, "eq", 0),), NONE))
 
     @res("map")
     def _(prog, var, p, a):
@@ -201,8 +215,10 @@ def reduce(prog, t, depth=0):
                 r = None
             if r is None:
                 return [((), t)]     # a function argument we cannot look into: leave the whole term alone
-            for c2, v2 in reduce(prog, r, depth + 1):
-                out.append((tuple(c0) + tuple(c1) + tuple(c2), v2))
+            alts = [((), r)] if r[0] != "cases" else list(r[1:])
+            for ca, ra in alts:
+                for c2, v2 in reduce(prog, ra, depth + 1):
+                    out.append((tuple(c0) + tuple(c1) + tuple(ca) + tuple(c2), v2))
     return out
 
 
